@@ -17,6 +17,7 @@ struct Outcome {
     bool skipped = false;   // op not applicable in this state (nothing was called)
     bool mutating = false;  // a public mutating call on the object was made
     std::string note;       // detail for listeners (e.g. deviation applied)
+    bool undocumented = false;   // an argument deviating in a way the documentation does not promise to refuse was ACCEPTED: the history ends here
 };
 
 struct Shape {
@@ -58,6 +59,8 @@ struct Listener {
 struct Interp {
     std::unique_ptr<ezc3d::c3d> obj;
     std::vector<ezc3d::DataNS::Frame> slots;
+    std::string slotDev[4];                          // deviation carried by each caller slot ("match" = none)
+    bool halted = false;                             // history ended by an accepted undocumented deviation
     std::vector<ezc3d::DataNS::Frame> lastCol;       // caller's column vector of the last pcol/acol (kept for reuse)
     std::string dir;                                 // scratch directory (must exist)
     std::string lastSavePath;
